@@ -33,6 +33,11 @@ def main():
     extra = json.load(open(extra_path)) if os.path.exists(extra_path) else {"claimed": {}, "not_applicable": {}}
     claimed = dict(CLAIMED)
     claimed.update(extra["claimed"])
+    import glob
+    for f in sorted(glob.glob(os.path.join(V, "harness", "manifest_c*.json"))):      # fragments of the other engines
+        frag = json.load(open(f))
+        claimed.update(frag.get("claimed", {}))
+        extra.setdefault("engines", []).extend(frag.get("engines", []))
     checks, na = [], []
     for p in props:
         pid = p["id"]
